@@ -15,7 +15,7 @@ CONSTANTS N,          \* tokencheckfailures (>= 1)
           Outcomes,   \* subset of {"ok", "err", "timeout"}
           Disabled,   \* server.disabled
           MaxSteps,   \* history bound for exhaustive exploration
-          Variant     \* "code" | "NoExit" | "BelowZero" | "NoReset" | "StaleGE" | "IgnoreDisabled" | "OffByOne" | "AnyTokenOk"
+          Variant     \* "code" | "CloseStopsOnTokenError" | "NoExit" | "BelowZero" | "NoReset" | "StaleGE" | "IgnoreDisabled" | "OffByOne" | "AnyTokenOk"
 
 VARIABLES status,   \* healthStatus: N = fully healthy ... 0 = flagged ERROR
           halves,   \* half-intervals since the last completed check (saturates at 8)
@@ -65,9 +65,12 @@ Tick ==   \* half a check interval passes without a completed check
   /\ UNCHANGED <<status, closed, loop, fails>>
   /\ hist' = Append(hist, [a |-> "Tick", o |-> [t \in Tokens |-> "ok"], h |-> Healthy', st |-> status'])
 
+\* Server.Close(): the Closed channel is closed and every token is closed; a token may fail to close (an already
+\* invalid session), which must not keep the server alive
 Close ==
   /\ ~closed /\ Len(hist) < MaxSteps
-  /\ closed' = TRUE
+  /\ \E tokenCloseFails \in BOOLEAN :
+       closed' = (IF Variant = "CloseStopsOnTokenError" /\ tokenCloseFails THEN FALSE ELSE TRUE)
   /\ UNCHANGED <<status, halves, loop, fails>>
   /\ hist' = Append(hist, [a |-> "Close", o |-> [t \in Tokens |-> "ok"], h |-> Healthy', st |-> status'])
 
@@ -96,5 +99,6 @@ OneSuccessRestores ==
 
 NoCheckAfterExit == [][loop = "exited" => (status' = status /\ fails' = fails /\ loop' = "exited")]_vars
 
-CloseEndsLoop == closed ~> (loop = "exited")
+CloseCalled == \E k \in DOMAIN hist : hist[k].a = "Close"
+CloseEndsLoop == CloseCalled ~> (loop = "exited")
 =============================================================================
